@@ -12,7 +12,8 @@ def ip(n):
 OPTS = [("host-name", 12, "str"), ("domain-name", 15, "str"), ("ntp-servers", 42, "iplist"), ("default-ttl", 23, "u8"),
         ("mtu", 26, "u16"), ("broadcast", 28, "ip"), ("class-id", 60, "str"), ("arp-timeout", 35, "dur"),
         ("routers", 3, "iplist"), ("dns-servers", 6, "iplist"), ("netmask", 1, "ip"), ("time-offset", 2, "i32"),
-        ("captive-portal", 114, "str"), ("wpad-url", 252, "str"), ("user-class", 77, "str")]
+        ("captive-portal", 114, "str"), ("wpad-url", 252, "str"), ("user-class", 77, "str"),
+        ("lease-time", 51, "dur"), ("lease-time", 51, "dur")]
 
 
 def gen_value(rng, kind, allow_null=True):
@@ -172,9 +173,14 @@ def gen_packet(rng, ctx, clients):
         opts[55] = bytes(sorted(pl))
     # requested address
     want = None
-    pool_addrs = [s[0] + o for s in ctx.subnets for o in (0, 1, 2, 2 ** (32 - s[1]) - 2, 2 ** (32 - s[1]) - 1)] + ctx.addrs
-    if rng.random() < 0.5 and (c["last"] or pool_addrs):
-        want = rng.choice(([c["last"]] * 3 if c["last"] else []) + pool_addrs)
+    pool_addrs = [s[0] + o for s in ctx.subnets for o in (0, 1, 2, 3, 2 ** (32 - s[1]) - 2, 2 ** (32 - s[1]) - 1)] + ctx.addrs
+    asked = c.setdefault("asked", [])
+    if rng.random() < 0.6 and (asked or pool_addrs):
+        # addresses this client named before come back often: a client ends up holding several leases and later names an
+        # older one again
+        want = rng.choice(asked * 3 + pool_addrs)
+        if want not in asked:
+            asked.append(want)
     if want is not None:
         if t == 3 and rng.random() < 0.4:
             m["ciaddr"] = want
